@@ -32,9 +32,13 @@ vars == <<W0, start, FB0, F0, FB, nl, ci, first, m, hnm, order, pos, flag, q0, q
 Signed == Objective \in {"negative_sym", "negative_asym"}
 UPairs == {p \in (1..N) \X (1..N) : p[1] < p[2]}
 DPairs == {p \in (1..N) \X (1..N) : p[1] # p[2]}
-Inputs == IF Dir THEN {Mat(N, LAMBDA i, j : IF i = j THEN 0 ELSE f[<<i, j>>]) : f \in [DPairs -> Vals]}
-          ELSE {Mat(N, LAMBDA i, j : IF i = j THEN 0 ELSE IF i < j THEN f[<<i, j>>] ELSE f[<<j, i>>])
-                  : f \in [UPairs -> Vals]}
+(* self-connections: hollow by default; cfg override  DiagVals <- DiagVals01  enumerates them *)
+DiagVals == {0}
+DiagVals01 == {0, 1}
+Inputs == IF Dir THEN {Mat(N, LAMBDA i, j : IF i = j THEN d[i] ELSE f[<<i, j>>])
+                         : f \in [DPairs -> Vals], d \in [1..N -> DiagVals]}
+          ELSE {Mat(N, LAMBDA i, j : IF i = j THEN d[i] ELSE IF i < j THEN f[<<i, j>>] ELSE f[<<j, i>>])
+                  : f \in [UPairs -> Vals], d \in [1..N -> DiagVals]}
 Admissible(W) ==
   /\ Total(N, W) > 0
   /\ Signed => Total(N, PosW(N, W)) > 0 /\ Total(N, NegW(N, W)) > 0
